@@ -40,10 +40,10 @@ TARGETS = [('path', 4), ('existing', 4), ('handle', 2), ('dirty_handle', 2), ('b
 
 def gen_plan(rng, tier, index):
     kind = rng.wpick([('rdms', 4), ('data', 3), ('result', 2)])
-    plan = {'kind': kind, 'decorate': rng.subset(['unicode', 'naninf', 'matrix', 'nomeasure', 'floatdesc', 'emptystr'], 0.0, 0.8),
+    plan = {'kind': kind, 'decorate': rng.subset(['unicode', 'naninf', 'matrix', 'nomeasure', 'floatdesc', 'emptystr', 'ragged'], 0.0, 0.8),
             'dec_seed': rng.randrange(10 ** 6)}
     if kind == 'rdms':
-        plan['family'] = gen_family(rng)
+        plan['family'] = gen_family(rng, n_cond=(2, 14) if rng.chance(0.4) else (2, 8), n_rdm=(1, 6))
         plan['pre_ops'] = c10.gen_ops(rng, rng.randint(0, 6), weights=[w for w in c10.WEIGHTS if w[0] not in ('to_df', 'size_recovery', 'array_write')])
     elif kind == 'data':
         plan['family'] = gen_data_family(rng)
@@ -71,6 +71,12 @@ def gen_plan(rng, tier, index):
 def directed_plans(tier):
     fam = c10.directed_plans(tier)[0]['family']
     plans = []
+    big = {'roots': [{'rdm_uids': [4, 9], 'cond_uids': list(range(1, 14)), 'measure': 'euclidean', 'descriptors': {'session': 's1'},
+                      'rdm_desc': {'grp': {'values': ['b', 'a'], 'container': 'list'}, 'extra': {'values': ['x4', 'x9'], 'container': 'array'}},
+                      'pat_desc': {'grp': {'values': list(range(13)), 'container': 'array'}}, 'nan_cells': []}]}
+    plans_big = [{'kind': 'rdms', 'family': big, 'pre_ops': [], 'decorate': ['ragged'], 'dec_seed': 1,
+                  'ops': [{'op': 'save', 't': 1, 'target': 'path', 'ft': ft, 'overwrite': False, 'fault': None, 'crash': False, 'p': 0},
+                          {'op': 'load', 'p': 0, 'via': 'path'}]} for ft in ('hdf5', 'pkl')]
     for ft in ('hdf5', 'pkl'):
         for target in ('path', 'handle', 'bytesio'):
             plans.append({'kind': 'rdms', 'family': fam, 'pre_ops': [], 'decorate': ['unicode', 'matrix', 'nomeasure'], 'dec_seed': 1,
@@ -90,7 +96,7 @@ def directed_plans(tier):
                       'result': {'routine': 'eval_fixed', 'models': (['fixed', 'weighted', 'select', 'interpolate'] * 3)[:n_models], 'method': 'cosine', 'N': 3},
                       'ops': [{'op': 'save', 't': 0, 'target': 'path', 'ft': 'hdf5', 'overwrite': False, 'fault': None, 'crash': False, 'p': 0},
                               {'op': 'load', 'p': 0, 'via': 'path'}]})
-    return plans
+    return plans + plans_big
 
 
 def summarize(plan):
@@ -266,6 +272,10 @@ def _decorate(obj, plan, kind):
         o.descriptors['count'] = 7
     if 'emptystr' in dec:
         o.descriptors['note'] = ''
+    if 'ragged' in dec:
+        # per-item arrays of different lengths: cannot form one numpy array, stored element by element
+        per_col['ragged'] = [np.arange(1 + (i * 7) % 3) * 1.5 + i for i in range(n_col)]
+        per_item['ragged'] = [np.arange(1 + i % 2) + 10.0 * i for i in range(n_item)]
     return o
 
 
@@ -492,7 +502,11 @@ def _do_save(ctx, pool, fs, files, objs, kind, o):
         obj.save(dest, file_type=ft, overwrite=ow)
     except Exception as ex:
         raised = ex
+        raised.__traceback__ = None      # do not keep the failed call's frames (and its h5py File object) alive
     fs.pending_fault = None
+    if raised is not None:
+        import gc
+        gc.collect()                     # finalise the File object of the failed save now, deterministically
     fault_fired = sum(ctx.faults.values()) > fired_before
     # (2) the in-memory object is unchanged, whether or not the save failed
     after = rec_any(obj)
@@ -512,6 +526,7 @@ def _do_save(ctx, pool, fs, files, objs, kind, o):
             ctx.probe('write_fault_reported')
             entry['twin'] = None          # torn file after a *reported* failure: not judged
             entry['crash'] = None
+            entry['handle'] = None        # ... and a handle whose write failed is not reused
             ctx.behaviour('save-failed', *sig)
             return
         ctx.violation('fs_model.save_raises', f'save:{kind}:{ft}:{target}:raises:{type(raised).__name__}',
